@@ -141,13 +141,13 @@ def lake_build(targets):
     return p
 
 
-def prove(ctx, modules, theorem_prefix=None, extra_audit_files=()):
+def prove(ctx, modules, drivers=None):
     """Build the Props module(s), check forbidden constructs, audit axioms. Returns True if all obligations hold."""
     t0 = time.time()
     pid = ctx.pid
     ok = True
     run([sys.executable, os.path.join(VERIF, "tools", "mklake.py")], cwd=VERIF)
-    p = lake_build(list(modules) + [f"drv_{pid.lower()}"])
+    p = lake_build(list(modules) + (list(drivers) if drivers is not None else [f"drv_{pid.lower()}"]))
     if p.returncode != 0:
         # which theorem broke?
         errs = re.findall(r"error: (\S+?):(\d+):\d+: (.*)", p.stdout + p.stderr)
@@ -280,13 +280,14 @@ def strip_lean_comments(s):
 # ---------------------------------------------------------------------------
 # stage 2: harness
 
-def build_harness(ctx, extra_bins=()):
+def build_harness(ctx, extra_bins=(), bins=None):
     t0 = time.time()
     lock = os.path.join(HARNESS, "Cargo.lock")
     if not os.path.exists(lock):
         shutil.copy(os.path.join(REPO, "Cargo.lock"), lock)
     env = {"RUSTFLAGS": "--cfg mimium_verif", "CARGO_TARGET_DIR": TARGET}
-    p = run(["cargo", "build", "--offline", "--quiet", "--bin", ctx.pid.lower()] + [x for b in extra_bins for x in ("--bin", b)],
+    blist = list(bins) if bins is not None else [ctx.pid.lower()] + list(extra_bins)
+    p = run(["cargo", "build", "--offline", "--quiet"] + [x for b in blist for x in ("--bin", b)],
             cwd=HARNESS, env=env, timeout=3600)
     ctx.coverage["harness_build_s"] = round(time.time() - t0, 1)
     if p.returncode != 0:
